@@ -145,7 +145,11 @@ func (con *Connection) Write(b []byte) (int, error) {
 
 // Read reads bytes from the connection. The read bytes are decrypted when possible.
 func (con *Connection) Read(b []byte) (int, error) {
-	if con.getDecrypter() != nil {
+	// A session which is not encrypted yet only switches to a pending secure
+	// session (set by the pair verify handler) once the controller's next bytes
+	// arrive – not when a read starts. A read which started while the pair verify
+	// response was not written yet would otherwise encrypt that response.
+	if con.getEncrypter() != nil {
 		return con.DecryptedRead(b)
 	}
 
